@@ -18,6 +18,11 @@ class C03(ProgramProperty):
             "returned, compress / is_uri / standardize_uri of what expand returned. Non-trivial = a URI written "
             "with a URI-prefix synonym or a CURIE written with a prefix synonym round-trips. Converters are built directly or through histories (queried, extended with new records and merges, a rejected call) as in C02.")
 
+    def exhaustive(self, tier):
+        from .. import smallscope
+
+        return smallscope.run(self.id, tier)
+
     def gen(self, rng, tier):
         delim = rng.choice(gen.DELIMS)
         pf = rng.random() < 0.5
